@@ -90,7 +90,7 @@ PROPS["C09"] = dict(
               "SqlVerif.Props.C09.suffix_is_drop", "SqlVerif.Props.C09.slice_is_text",
               "SqlVerif.Props.C09.next_token_text"],
     corr=["tok"],
-    unique_output={"tok": True},
+    unique_output={"tok": False},
     oracle=["C09"],
     level_text="Proved in Lean for every dialect row, both un-escape modes, arbitrary character predicates and every input, on a hand-written executable model of Tokenizer (State, tokenize_with_location, next_token branch by branch in source order, all literal scanners): the slices consumed by the tokens concatenate to exactly the input (nothing dropped, duplicated or reordered), every token consumes at least one character, the reported (line, col) of each token is 1 + the number of newlines / 1 + the number of characters after the last newline of the text before it, locations increase strictly, tokenizing from any token boundary yields the remaining tokens with the same slices (next_token never reads line/col), the loop never runs out of fuel, and for every token that determines its text (unquoted words, numbers, punctuation/operators, placeholders, custom operators, line and block comments, Tab, Char) the slice is exactly that text. All of it follows from one lemma proved for every branch of next_token (a token consumes a non-empty prefix of the remaining input). The model is tied to the code by the `tok` stream: full token vectors with locations and error values (message and location) of the real tokenize_with_location vs the compiled model on every corpus literal x rotating dialects x both modes and on a fragment soup (all operator spellings, quote/prefix/dollar/comment openers, numbers and exponents, every whitespace kind, identifiers with @ # $ _, non-ASCII and astral characters, backslash escapes: every fragment x 13 dialects, all ordered pairs adjacent and spaced, prefix x quote x body grids, dollar-quote and nested-comment grids, random concatenations); tokenize is a function, so a disagreement on a request is a violation of the tie.",
     level_note="Trusted: Lean kernel (axioms propext, Classical.choice, Quot.sound); the hand-written model (Model/Tokenizer.lean, Model/Scan.lean), validated by the differential only on the generated and corpus inputs; Rust's Unicode predicates, char::to_uppercase and the four char->bool dialect methods are parameters whose real values travel with each request; dialect_of! tests are modelled as tests on the dialect name (true for the 13 built-in dialects, not for wrapper dialects); Token.text (the text a token stands for) is a definition of the theorem file, not checked against Display. Not claimed: slice = text for quoted literals / delimited identifiers (C06/C20), Neq (<> or !=), Newline (\\n, \\r, \\r\\n), Space (any whitespace char), HexStringLiteral; no direct oracle on the real code yet (correspondence only).",
@@ -136,7 +136,7 @@ PROPS["C07"] = dict(
     required=["SqlVerif.Props.C07.cursor_refinement", "SqlVerif.Props.C07.layout_blind", "SqlVerif.Props.C07.layout_blind_accepts",
               "SqlVerif.Props.C07Lexer.layout_lexer", "SqlVerif.Props.C07Lexer.layout_parse", "SqlVerif.Props.C07Lexer.prefix_stable"],
     corr=["cursor", "tok"],
-    unique_output={"cursor": False, "tok": True},
+    unique_output={"cursor": False, "tok": False},
     oracle=["C07"],
     level_text="Proved in Lean for ALL programs over the parser's cursor API (a deep embedding with function-typed continuations; tokens are handed over without locations), all token vectors and all whitespace predicates: a program that uses no *_no_skip operation behaves on the raw token vector exactly as on the list of non-whitespace tokens (refinement, incl. errors, reported positions and the prev_token panic), hence two vectors with the same non-whitespace tokens give the same tree / the same rejection whatever whitespace and comments lie between. The cursor model is tied to the code by an op-sequence differential on the real public API and by the regenerated inventory of functions with raw access to tokens/index and of *_no_skip callers. The lexer half is proved on the tokenizer model (tied to the code by the tok stream): for every non-Redshift dialect record, replacing a whitespace run that starts with a separator character by another such run (both lexing to whitespace tokens in context) leaves the non-whitespace tokens unchanged (layout_lexer, proved for every branch of next_token), and composed with the cursor theorem every whitespace-skipping program gives the same outcome (layout_parse). Redshift's look-ahead past whitespace after `[` is a proved counterexample (known finding). Runs that start with a comment opener directly after a token, and the meta-step from parse functions to programs, are covered by the layout-replacement oracle on the real code (every whitespace run of every corpus text x 13 layouts x 13 dialects, accepted and rejected texts).",
     level_note="Trusted: Lean kernel; hand-written cursor model; the meta-step that parse functions are programs over the inventoried API; the lexer lemma is not proved (oracle + tokenizer correspondence only). COPY payload and BigQuery hyphenated identifiers use *_no_skip by design (listed in the inventory).",
@@ -152,7 +152,7 @@ PROPS["C10"] = dict(
               "SqlVerif.Props.C10.expected_found_same_token", "SqlVerif.Props.C10.full_statement_parser_half",
               "SqlVerif.Props.C10Lexer.tok_error_loc_in_range", "SqlVerif.Props.C10Lexer.tok_error_anatomy"],
     corr=["cursor", "tok"],
-    unique_output={"cursor": False, "tok": True},
+    unique_output={"cursor": False, "tok": False},
     oracle=["C10"],
     level_text="Proved in Lean for ALL programs over the cursor API (so for every parse function, whatever it does) and all token vectors: a location that ends up in an error is the location of a token of the input that the program was handed, or the (0,0) of the EOF sentinel, which prints as no position; programs cannot compute with locations. Tied to the code by the cursor op-sequence differential (returned tokens AND locations compared) and by regenerated inventories (every Location{..} literal in the parser is (0,0); every TokenWithLocation{..} construction; no hash iteration/time/randomness in src/). Partial: which message is paired with which token at each error site, the lexical/syntactic kind, and the tokenizer's error positions are decided by the rejection oracle on the real code (token-level mutations of every corpus text, all dialects).",
     level_note="Trusted: Lean kernel; hand-written cursor model; meta-step as for C07. Two functions read tokens[index-1] directly for an error position (parse_literal_char, parse_create_role): modelled as a handle to the last consumed token. Lexer half: on the tokenizer model every lexical error position is the position of a prefix of the input (inside the text or just after its end) and the message is one of ten known shapes (tok_error_loc_in_range, tok_error_anatomy).",
@@ -197,7 +197,7 @@ PROPS["C02"] = dict(
               "SqlVerif.Props.C02Parser.dml_fuel_irrelevant_script", "SqlVerif.Props.C02Parser.dml_fuel_irrelevant_script_of_need",
               "SqlVerif.Props.C02Parser.dml_no_panic"],
     corr=["tok", "cursor"],
-    unique_output={"tok": True, "cursor": False},
+    unique_output={"tok": False, "cursor": False},
     oracle=["C02"],
     level_text="Proved in Lean on the tokenizer model (tied to the code by the tok stream, >1M requests, 0 disagreements): tokenizing is total, makes at most |s|+1 token steps and consumes every character exactly once (linear work), and each panic site of the real tokenizer (matching_end_quote, the exponent unwrap, the single-line-comment assert, the keyword index) is unreachable for every input under the 13 built-in dialect records (side conditions decided on the tabulated dialect rows). The cursor operations never index out of range and prev_token panics exactly at abstract position 0 (cursor refinement theorem, C07), and call depth is bounded by the recursion limit (C03 certificate). Every panic/unwrap/unreachable/assert/index site of parser, tokenizer, dialects and AST code is inventoried from source on every run; a new or changed site is an open obligation. Parser fragment (Props/C02Parser.lean; models Model/Pratt.lean and Model/Query.lean with the parse_statements loop, tied by the streams chains/ladder/queries): for every configuration record, recursion limit and token list the modelled parser terminates - with fuel >= need(n, limit) = 2n+5 (n = token count; independent of the limit because every cycle of the modelled call graph consumes a token; tight up to +2) no run of parse_expr / parse_subexpr / parse_statement / a script ends in the model's out-of-fuel value; a run that does not end out of fuel is repeated verbatim under every larger fuel (fuel irrelevance, so the for-every-fuel theorems of C01/C04/C05/C11/C12/C13 speak about one outcome per input); the expression parser makes at most 4n+2 calls of its five mutually recursive functions (fewer than 4 per consumed token on success), i.e. linear work; the outcome is a tree with a strictly shorter rest or one of the error values RecursionLimitExceeded / ParserError / outside-the-fragment, and the guards of the unwrap/unreachable sites inside modelled functions (parse_comma_separated returns >= 1 element, limit.unwrap() in parse_query, ALL/ANY/SOME in parse_infix) hold on every path of the model. The deep oracle additionally checks real cursor steps <= 16 * need(tokens, limit) on the chain/list/nesting families that lie inside the fragment (signature work-bound/<family>). The same holds for the statement model (Model/Dml.lean: INSERT / UPDATE / DELETE / CREATE TABLE / DROP TABLE / VALUES, column types through the data-type model, stream dml): with the same need(n) = 2n+5 no statement and no script runs out of fuel - the ad-hoc loops of parse_columns and parse_column_def consume a token per round -, runs are fuel-irrelevant and value-only (dml_never_out_of_fuel, dml_script_never_out_of_fuel, dml_fuel_irrelevant, dml_no_panic). Partial: the parser's unreachable!/unwrap sites outside the modelled code and super-linear backtracking are decided by search on the real code (prefixes, deletions, duplications, splices of every corpus text, fragment soup, deep chains and nestings in child processes, under a cursor-step budget from the hook).",
     level_note="Trusted: Lean kernel; tokenizer and cursor models; the step counter hook (cursor operations as the work measure); wall time, allocation and real stack bytes are measured, not modelled. The modelled fragment contains no re-parse: the speculative sites of parse_prefix (typed-string probe, lambda probe, parenthesised-subquery probe) and the derived-table-vs-nested-join fall-back of parse_table_factor are modelled by their non-recursive outcome and answer outside-the-fragment where they would re-parse, so the exponential families (POSITION nesting, parenthesised FROM items) and the ~300 unmodelled parser functions stay search-only; for the query layer the call depth is proved linear but the number of calls is not instrumented (expression layer only). Known findings: deep left spines overflow the stack in Display/Debug/Clone/Eq/Drop; POSITION-as-function backtracking is exponential.",
@@ -213,7 +213,7 @@ PROPS["C15"] = dict(
               "SqlVerif.Props.C15.wrapped_parses_alike", "SqlVerif.Props.C15.interface_only"],
     corr=["tok", "prec", "chains"],
     corr_env={"VERIF_WRAP": "1"},
-    unique_output={"tok": True, "prec": False, "chains": False},
+    unique_output={"tok": False, "prec": False, "chains": False},
     oracle=["C15"],
     level_text="The tokenizer and expression-parser models take the dialect as a record of interface values (every capability method, the precedence table, the character predicates, the identity reported by dialect()) and have no access to a concrete type; Lean proves that the record of a forwarding dialect (wrapper generated from the current trait definition) equals the inner one, hence both models behave identically, and that any function of the record is determined by the interface values. The tie carries the weight: in this check the tok, prec and chains streams run the REAL crate under the generated forwarding wrapper Wrapped(D) (every trait method forwarded, generated by build.rs from the current trait so that a new method is forwarded automatically) against the models under D's own tabulated record, so any consultation of the concrete type inside the modelled code is a disagreement; the inventory pins every type_id()/downcast and every dialect_of! use in src/. Whole grammar: real-vs-real oracle (wrapped vs built-in, parse and tokenize, every corpus literal x 13 dialects x 2 option sets) and no-panic under a wrapper that keeps its own identity.",
     level_note="Trusted: Lean kernel; the models (tokenizer, Pratt fragment) and their streams; build.rs wrapper generation. Outside the modelled fragment the property is decided by the real-vs-real oracle only.",
@@ -302,7 +302,7 @@ PROPS["C06"] = dict(
               "SqlVerif.Props.C06.ident_roundtrip_partial", "SqlVerif.Props.C06.ident_doubled_quote_collapses",
               "SqlVerif.Props.C06.bracket_close_breaks", "SqlVerif.Props.C06.fullStatement_false"],
     corr=["lits"],
-    unique_output={"lits": True},
+    unique_output={"lits": False},
     oracle=["C06"],
     level_text="Proved in Lean, for ALL payloads (lists of code points) and all continuations that do not start with the closing quote, on hand-written executable models of the four escape printers of value.rs and of Display for Value / DollarQuotedString / Ident against the literal scanners of the tokenizer model: (1) E'..' : scanning the printed text gives the payload back, with no condition on the payload (a literal NUL is copied; the printer never emits an escape denoting NUL), and through next_token in EVERY dialect row and both un-escape modes; (2) U&'..' : the same for every payload whose non-ASCII code points are scalar values (every Rust char), with hex4/hex6 round trips over all values, through next_token in every dialect with supports_unicode_string_literal; (3) partial: the quote-doubling printer ('..', \"..\", quoted identifiers) gives the payload back under the decidable predicate CleanQ (no two adjacent quotes, no backslash directly before a quote, no backslash at all in a backslash-escape dialect), through next_token for '..' in every dialect (in triple-quote dialects only if the payload does not start with a quote); the kinds printed verbatim come back IFF the payload has no quote (N''/X'': and no backslash, in every dialect, proved as an iff through next_token; triple-quoted: no run of three quotes, no trailing quote); dollar-quoted and [..] / \"..\" / backquote identifiers under explicit predicates. Each way the full property fails on the current code has a kernel-checked witness (payload '' collapses, \\' unbalanced, backslash re-interpreted, leading quote opens a triple-quoted string, N'a'b', N'a\\nb', trailing quote in triple-quoted, $ at the end / tag inside / partial tag match in dollar quoting, \"\" identifier, ] in a bracket identifier); FullStatement is proved FALSE. The models are tied to the code by stream lits: for every payload of G-payload (all strings of length <= 2, thorough <= 3, over 19 characters incl. all quote characters, backslash, $, brackets, LF, CR, NUL, NBSP, non-ASCII and astral, plus quote/backslash/dollar patterns and random longer strings) x 32 literal/identifier forms: real to_string() vs model printer, and real Tokenizer vs model tokenizer on the printed text under 5 (thorough: 13) dialects x both modes. Direct oracle on the real code: tokens_d(print(k(p))) == [k(p)] and parse_expr gives the node back, for every dialect that lexes the trivial instance.",
     level_note="Trusted: Lean kernel (axioms propext, Classical.choice, Quot.sound); the hand-written printer and scanner models (validated by the differential on the generated payloads only); dialect_of! modelled as a test on the built-in dialect's name. Partial: no theorem at next_token level for \"..\" strings, byte/raw/triple kinds, dollar quoting and identifiers (dispatch on dialect and delimiter sets; decided by the oracle); the converse (necessity) of CleanQ / cleanDollar / cleanTag is shown only by witnesses. The full property is FALSE on the current tree; every failing (kind, payload feature, dialect class) found by the oracle is a known finding, anything else is a violation. {:06X} is modelled with exactly six digits (exact for every char; beyond 2^24 Rust would print more).",
@@ -323,7 +323,7 @@ PROPS["C20"] = dict(
               "SqlVerif.Props.C20.modes_same_acceptance", "SqlVerif.Props.C20.escaped_ignores_raw_mode",
               "SqlVerif.Props.C20.escaped_ignores_raw_mode_general", "SqlVerif.Props.C20.fullStatement_false"],
     corr=["lits", "tok"],
-    unique_output={"lits": True, "tok": True},
+    unique_output={"lits": False, "tok": False},
     oracle=["C20"],
     level_text="Proved in Lean on the tokenizer and printer models, for every dialect row, arbitrary character predicates and every input: (raw_body_exact) with un-escaping off, the payload returned by tokenize_quoted_string (single and triple form), tokenize_single_or_triple_quoted_string and parse_quoted_ident is exactly the source text between the delimiters (opening ++ payload ++ closing ++ rest = input), and the literal branches of next_token ('..', \"..\", triple-quoted, B/R/N/X prefixed, delimited identifiers) build their token from that slice; (print_raw_identity) EscapeQuotedString is the identity on EVERY payload in the image of the raw-mode scanner, with and without backslash escapes (induction along the scanner's run: quotes occur only as doubled pairs or behind a backslash, exactly the two cases the printer's look-ahead leaves alone), hence printing a raw-mode '..'/\"..\" literal or quoted identifier reproduces its source slice byte for byte, and the verbatim kinds do so by definition; (modes_same_shape) tokenize with and without un-escaping returns the same located error, or token lists of equal length with equal locations and tokens equal except for the payloads of the kinds read by tokenize_quoted_string / parse_quoted_ident (E'..', U&'..', dollar-quoted strings, numbers and words are equal in full), proved per branch of next_token and lifted through the loop. Negation with kernel-checked witnesses: E'..' and U&'..' un-escape whatever the option says (the two branches never read it), so the token-level FullStatement is proved FALSE. Tie: streams tok and lits compare the real tokenizer with the model in both modes, lits also the printers. Partial: the tree-level claims (printing the parsed tree reproduces the bodies; trees of the two modes differ only in payloads) are decided by the oracle on the real code (corpus + generated literals with doubled quotes, backslashes and escapes in every literal form x 13 dialects).",
     level_note="Trusted: Lean kernel (axioms propext, Classical.choice, Quot.sound); the hand-written tokenizer and printer models (validated by the differentials only on generated and corpus inputs). Not a theorem: anything about the parser (it inspects payload text at a few sites such as parse_literal_char and introducers) -- oracle only. E'..'/U&'..' ignoring the option is a known finding of the current tree.",
@@ -594,6 +594,17 @@ PROPS["C05"]["required"] += ["SqlVerif.Props.C05Tcl.tcl_content_preserved_partia
 PROPS["C05"]["corr"].append("tcl")
 PROPS["C05"]["unique_output"]["tcl"] = False
 PROPS["C05"]["level_text"] += " The content theorem is extended to the third statement fragment (Model/Tcl.lean + TclPrint.lean: transaction control, SET ..., USE / DISCARD / DEALLOCATE / CLOSE / ASSERT; Display text tied to to_string() by stream tcl): tcl_content_preserved_partial for printable statements (the transaction-control statements, SET ROLE, USE, DISCARD, DEALLOCATE and CLOSE unconditionally, tcl_content_preserved_tx). What the printer drops or rewrites is kept as kernel-checked witnesses: noise words (TRANSACTION / WORK, AND NO CHAIN, END for COMMIT, SESSION of SET SESSION x = ..., TO for =, TIME ZONE = v printed TIMEZONE = v) are keywords only; CONTENT changes where Display writes a word that is no keyword in upper case (`set names x` prints NAMES, `characteristics` prints CHARACTERISTICS) and where SET NAMES writes its charset / collation strings raw: `SET NAMES 'utf8'` loses the quotes and `SET NAMES 'a b'` prints `SET NAMES a b`, which the parser rejects (set_names_string_unquoted)."
+
+PROPS["C01"]["lean"].append("SqlVerif.Props.C01Tcl")
+PROPS["C01"]["namespaces"].append("SqlVerif.Props.C01Tcl")
+PROPS["C01"]["required"] += ["SqlVerif.Props.C01Tcl.tcl_reparse_fixpoint_partial", "SqlVerif.Props.C01Tcl.tcl_reparse_fixpoint_normal",
+                             "SqlVerif.Props.C01Tcl.tcl_reparse_fixpoint_tx", "SqlVerif.Props.C01Tcl.tcl_script_reparse_partial",
+                             "SqlVerif.Props.C01Tcl.tcl_script_fixpoint_partial",
+                             "SqlVerif.Props.C01Tcl.sampleS_hyps", "SqlVerif.Props.C01Tcl.sampleR_hyps", "SqlVerif.Props.C01Tcl.sampleC_hyps",
+                             "SqlVerif.Props.C01Tcl.sampleZ_hyps", "SqlVerif.Props.C01Tcl.sampleX_hyps", "SqlVerif.Props.C01Tcl.sampleT_hyps", "SqlVerif.Props.C01Tcl.sampleA_hyps",
+                             "SqlVerif.Props.C01Tcl.sampleV_hyps",
+                             "SqlVerif.Props.C01Tcl.set_session_modifier_not_fixpoint", "SqlVerif.Props.C01Tcl.set_names_not_fixpoint"]
+PROPS["C01"]["level_text"] += " Third statement fragment (Model/Tcl.lean + Model/TclPrint.lean: transaction control, SET ..., USE / DISCARD / DEALLOCATE / CLOSE / ASSERT, and through the dispatcher every statement of the first two fragments; tied by stream tcl, see C11/C05): (tcl_reparse_fixpoint_partial, tcl_script_fixpoint_partial for scripts mixing the three fragments) for EVERY configuration record, fuel, limit and token list, an accepted statement that satisfies the decidable condition fixOk over lexer-like tokens re-parses from its printed tokens, with the SAME fuel and limit, to s.norm, which has the S-expression of s. The token image qc forgets the spelling of keyword words and parse_set tests variable names by text, so the proof does not go through the simulation of the dispatcher: the parser is evaluated on the explicit printed token lists, expression operands are re-parsed through the simulation of the expression layer, statements of the first two fragments through the second fragment's theorem and an inversion of the dispatcher. fixOk asks nothing of the transaction-control statements, SET ROLE, SET TRANSACTION / SESSION CHARACTERISTICS, USE, DISCARD, DEALLOCATE, CLOSE (tcl_reparse_fixpoint_tx: not even lexer-like input; all of Display's rewrites there - BEGIN WORK, END, noise words, AND NO CHAIN, TO a, RELEASE a, inserted mode commas, a SESSION added to CHARACTERISTICS, TEMPORARY - re-parse to the same AST), printable operands for ASSERT / SET TIME ZONE / SET variable = values (one-name, TIME ZONE and parenthesised-tuple targets, every modifier, no trailing comma after the values). Two counterexamples found with this model are kept as kernel-checked witnesses and reproduce on the real parser: SET NAMES writes its charset / collation strings raw (`SET NAMES 'a b'` prints `SET NAMES a b`, rejected; `SET NAMES 'utf8 COLLATE x'` re-parses to a different tree; set_names_not_fixpoint), and the dropped SESSION modifier exposes a variable called LOCAL / SESSION / HIVEVAR (`SET SESSION LOCAL = 1` prints `SET LOCAL = 1`, rejected; set_session_modifier_not_fixpoint)."
 
 # entries still under construction by a sub-agent are not claimed in MANIFEST.json yet
 for _hold in []:
